@@ -141,7 +141,7 @@ Lemma trans_order_v2 cfg l :
 Proof.
   intros Hv Hlen. unfold trans_order. rewrite Hv.
   change MAX_ACTIVE_LAYERS with 12%nat in *.
-  destruct (Nat.ltb_spec 12 (length (active_held_layers l))); [lia|].
+  rewrite firstn_all2 by lia.
   rewrite (sat_push_back_room 12 (default_layer l) (active_held_layers l)) by lia. cbn [fst].
   destruct (delegate_first cfg && negb (current_layer l =? 0) && negb (default_layer l =? 0)).
   - rewrite sat_push_back_room by (rewrite app_length; cbn; lia). cbn [fst].
